@@ -5,6 +5,7 @@ import (
 	"fmt"
 	"strings"
 	"sync"
+	"sync/atomic"
 	"testing"
 	"time"
 
@@ -428,6 +429,7 @@ func TestC03(t *testing.T) {
 			}
 		}
 	}
+	c03CrossDeps(run)
 }
 
 func countSendGoroutines() int {
@@ -550,4 +552,74 @@ func c03Overlap(run *rt.Run, w *World, gs *gateSet, cr *rt.Rand, desc []string) 
 	awaitSend(run, b, "after-gates-open", wit)
 	rt.WaitNoGoroutine(5*time.Second, "eventlogger.(*graph).process", "eventlogger.(*graph).doProcess")
 	run.Eval("overlap|" + strings.Join(desc, ";"))
+}
+
+// c03CrossDeps: nodes may finish in any order. Here a non-root node of every pipeline can only return once the
+// first nodes of all the other pipelines have been invoked (user code that waits for something the other pipeline
+// produces). The roots run one after the other and everything else in goroutines of its own, so that always
+// happens; a never-cancelled Send must return after all pipelines finished.
+func c03CrossDeps(run *rt.Run) {
+	r := run.Rand()
+	n := run.N(30, 1500)
+	for i := 0; i < n && !run.Stop(); i++ {
+		cr := r.Fork()
+		b, _ := eventlogger.NewBroker()
+		log := &Log{}
+		np := cr.Range(2, 4)
+		invoked := make([]chan struct{}, np)
+		once := make([]sync.Once, np)
+		var gaveUp int32
+		for k := 0; k < np; k++ {
+			invoked[k] = make(chan struct{})
+		}
+		depth := cr.Range(1, 2) // which node after the root waits
+		for k := 0; k < np; k++ {
+			k := k
+			ids := []eventlogger.NodeID{}
+			for j, ty := range []eventlogger.NodeType{eventlogger.NodeTypeFilter, eventlogger.NodeTypeFormatter, eventlogger.NodeTypeSink} {
+				nd := NewRecNode(log, fmt.Sprintf("x%d-%d", k, j), ty, 1, fixedBeh(Pass))
+				switch {
+				case j == 0:
+					nd.OnProcess = func(ctx context.Context, n *RecNode, e *eventlogger.Event, ent *Entry) {
+						once[k].Do(func() { close(invoked[k]) })
+					}
+				case j == depth:
+					nd.OnProcess = func(ctx context.Context, n *RecNode, e *eventlogger.Event, ent *Entry) {
+						for o := 0; o < np; o++ {
+							if o == k {
+								continue
+							}
+							select {
+							case <-invoked[o]:
+							case <-time.After(sendWatchdog + 5*time.Second):
+								atomic.StoreInt32(&gaveUp, 1) // lets the process end; the verdict was taken before
+							}
+						}
+					}
+				}
+				b.RegisterNode(nd.ID, nd)
+				ids = append(ids, nd.ID)
+			}
+			if err := b.RegisterPipeline(eventlogger.Pipeline{PipelineID: eventlogger.PipelineID(fmt.Sprintf("p%d", k)), EventType: "t", NodeIDs: ids}); err != nil {
+				panic(err)
+			}
+		}
+		run.Progress("C03 cross dependencies %d pipelines=%d waiting-node=%d", i, np, depth)
+		a := &asyncSend{done: make(chan struct{}), obs: &SendObs{SendID: fmt.Sprintf("x%d", i), Type: "t"}}
+		go func() {
+			defer close(a.done)
+			a.obs.Status, a.obs.Err = b.Send(context.Background(), "t", &Tok{S: a.obs.SendID})
+		}()
+		ok := awaitSend(run, a, "nodes-wait-for-other-pipelines", func() any {
+			return map[string]any{"pipelines": np, "waiting_node_position": depth,
+				"scenario": "the node at that position of every pipeline returns only after the first nodes of all other pipelines were invoked; context never cancelled"}
+		})
+		if ok && a.obs.Err == nil && len(a.obs.Status.Complete()) != np {
+			run.Violation("history-pattern:early-return", fmt.Sprintf("Send returned with %d complete pipelines of %d although the context was never cancelled", len(a.obs.Status.Complete()), np), nil)
+		}
+		if !ok {
+			<-a.done // the waiting nodes give up after the watchdog, so the process can go on
+		}
+		run.Eval(fmt.Sprintf("cross|%d|%d", np, depth))
+	}
 }
